@@ -15,6 +15,7 @@ import (
 	"github.com/flant/shell-operator/pkg/task"
 	"github.com/flant/shell-operator/pkg/utils/exponential_backoff"
 	"github.com/flant/shell-operator/pkg/utils/measure"
+	"github.com/flant/shell-operator/pkg/utils/verifhook"
 )
 
 /*
@@ -427,6 +428,7 @@ func (q *TaskQueue) Start() {
 			t := q.waitForTask(sleepDelay)
 			if t == nil {
 				q.SetStatus("stop")
+				verifhook.Point("q.worker.exit", q.Name, "wait")
 				log.Info("queue stopped", slog.String("name", q.Name))
 				return
 			}
@@ -438,13 +440,16 @@ func (q *TaskQueue) Start() {
 			// Now the task can be handled!
 			var nextSleepDelay time.Duration
 			q.SetStatus("run first task")
+			verifhook.Point("q.handler.enter", q.Name, t, q)
 			taskRes := q.Handler(t)
+			verifhook.Point("q.handler.exit", q.Name, t, q, string(taskRes.Status))
 
 			// Check Done channel after long-running operation.
 			select {
 			case <-q.ctx.Done():
 				log.Info("queue stopped after task handling", slog.String("name", q.Name))
 				q.SetStatus("stop")
+				verifhook.Point("q.worker.exit", q.Name, "handler")
 				return
 			default:
 			}
@@ -511,6 +516,8 @@ func (q *TaskQueue) waitForTask(sleepDelay time.Duration) task.Task {
 	default:
 	}
 
+	verifhook.Point("q.wait.begin", q.Name, q.ctx.Err() != nil)
+
 	// Shortcut: return the first task if the queue is not empty and delay is not required.
 	if !q.IsEmpty() && sleepDelay == 0 {
 		return q.GetFirst()
@@ -550,6 +557,7 @@ func (q *TaskQueue) waitForTask(sleepDelay time.Duration) task.Task {
 			// Queue is stopped.
 			return nil
 		case <-checkTicker.C:
+			verifhook.Point("q.wait.tick", q.Name, q.ctx.Err() != nil)
 			// Check and update waitUntil.
 			elapsed := time.Since(waitBegin)
 
